@@ -217,6 +217,12 @@ class ArrayConstraintBuilder(ConstraintOverrideVisitor):
                     # Extend the size appropriately
                     for i in range(max_size-len(f.field_l)):
                         f.add_field()
+
+            if not f.is_scalar:
+                # Rand-sized arrays inside the elements of an array 
+                # of objects are sized as well
+                for sf in f.field_l:
+                    sf.accept(self)
         elif self.phase == 1:
             if not f.is_scalar:
                 # Need to recurse into sub-fields for non-scalar arrays
